@@ -40,7 +40,7 @@ def corpus():
         # F-C17-1: the more specific interface loses (non-transitive comparison + insertion sort)
         "A|T=i0:;i1:0;i2:;h3:;c4:/R=1<3;2<3|" + _tables("T=i0:;i1:0;i2:;h3:;c4:/R=1<3;2<3") +
         "|0:0:4:0:n;1:2:4:2:n;2:1:4:1:n|-|a 3 4",
-        # F-C17-2: None already provides object, adapt raises
+        # F15 (repaired in /repo 4b42b24): None already provides object / NoneType and is returned unchanged
         "A|T=o;n|" + _tables("T=o;n") + "|-|-|a 1n 0;d 1n 0;s 1n 0;a 1n 1",
         # conditional adapters: first path fails, longer one found
         "A|T=c0:;c1:;c2:|" + _tables("T=c0:;c1:;c2:") + "|0:0:2:0:n;1:0:1:0:n;2:1:2:1:n|0@-=n|a 0 2;d 0 2;s 0 2;t S 1 1 0 2;t A 1 0 0 2",
@@ -611,8 +611,8 @@ def _oracle_trait(cls, mode, an, src, target, exc, x, x_, ref, ref_exc, trait_lo
             return True
         return isinstance(a, L.Ad) and isinstance(b, L.Ad) and a.prov == b.prov
     if src is None:
-        # None: accepted iff allow_none, or (adapt='no') None is an instance of the class
-        accept = bool(an) or (mode == 0 and isinstance(None, target))
+        # None: accepted iff allow_none, in every mode (it is never tested against the class)
+        accept = bool(an)
         ok = (exc is None) if accept else (exc is not None and exc_name(exc) == "TraitError")
         if not ok:
             hits.append(_hit(sig + ":none", "None with allow_none=%d: %s" % (an, exc)))
